@@ -3,16 +3,19 @@
 //
 // Three case kinds (T = int; a value is key*1000 + tag, the tag makes ties distinguishable):
 //
-//	@ C04 slice <cmp> v…     Slice[int] from FromSlice          ops: push pop peek len rm fix set setfix popall popalln seq range rangeall
+//	@ C04 slice <cmp> v…     Slice[int] from FromSlice          ops: push pop peek len rm fix set setfix popall popalln seq range rangeall popallbody pull next stop
 //	@ C04 slicen <cmp> <cap> Slice[int] from NewSlice(cap,·)    ops: as slice
 //	@ C04 heap <cmp> [<capA> <capB> [zv]]   two Heap[int] A, B from New(cap,·) (zv: zero values, Init comes first)
-//	                                        ops: init initc push pushe pop peek len rm fix setv setfix popall popalln seq range rangeall copyrm copyfix
+//	                                        ops: init initc push pushe pop peek len rm fix setv setfix popall popalln seq range rangeall copyrm copyfix popallbody pull next stop
 //	@ C04 generic <cmp> v…   generic functions on a recording container   ops: init push pop rm fix set
 //
 // `seq [A|B]` is `q := h.PopAll()` kept in the next slot (0,1,2…); `range <slot> <k>` / `rangeall <slot>` range
 // over the STORED q like popalln / popall do over a fresh one (a Seq is the heap's identity: every range
 // pops from what the heap holds then). `copyrm/copyfix <A|B> <e>` = `c := *h; c.Remove(e)` / `c.Fix(e)`:
 // a copy is another Heap object, every handle is foreign to it, nothing may change.
+//
+// Wave 5: `popallbody [A|B] <k> <item>…` ranges over PopAll() with a loop body that uses the heaps (body.go);
+// `pull <slot>` = `next, stop := iter.Pull(q_slot)` (cursor 0,1,2…), `next <cur>`, `stop <cur>`.
 //
 // `popalln [A|B] <k>` (k >= 1) is `for x := range PopAll() { got = append(got, x); if len(got) == k { break } }`:
 // the consumer leaves the loop early (the model: k Pops, stopping at the first empty answer).
@@ -68,6 +71,8 @@ func init() {
 			"PopAll drained and left early after k elements (popalln, k aimed at 1, n/2, n-1, n, n+3); stream `large` (1.5% of the cases in quick, 0.5% in thorough): the container is created with 63/64/65/100/127/128/129/200/255/256/257/500/999/1000/1001/1024/1025/2000 elements and gets <= 10 ops (early-left PopAll with small and large k, Pop/Push/Remove/Fix at root, last slot, middle); " +
 			"handle ops 85% live (aimed at the last slot, the root, removals whose substitute moves up), 10% stale (popped/removed/discarded by Init), 5% of the other heap; indices -1..len; " +
 			"wave 4: heaps made by New(cap,·) with cap from {0,1,2,3,7,8,9,64,100} (pushes cross it while handles are held; in `large` 63/64/100 crossed by 63..129 pushes) or as zero values + Init, slices by NewSlice(cap,·) (`slicen`); Seq values (`seq` = q := PopAll()) made early (45% of the heap cases, 40% of the slice cases, 60% of the large ones) and ranged over late (`range`/`rangeall` on the stored q): again, after an early break, after push/pushe/rm/setfix, after Init of that heap with the same / another comparator (an Init of a heap with a held Seq is followed by a range over it 70% of the time), while the other heap changes; Remove/Fix on a struct copy of a heap (`copyrm`/`copyfix`, handle 85% live in the original); a handle discarded by an Init with another comparator is re-pushed into the OTHER heap (75% of those Inits) and then removed/fixed/popped there; " +
+			"wave 5: `popallbody` (6 in ~100 ops; in `large` 12 in ~130): PopAll ranged over with a loop body that uses the heaps — 0..6 calls (Push / Peek / Len / Pop / Remove / Fix, 22% on the OTHER heap) placed in the iterations 0, 1, 2, n/2, n-1 and the one the loop is left in (k = 0: drain, 45%; else k aimed like popalln): pushes of a value that PRECEDES the element just yielded (26% of the calls, often followed by a Peek), of a later one, Peek right after the yield, Remove/Fix of a live handle / the one the next iteration would yield / the one just yielded / stale / foreign ones, calls written for iterations that never run; " +
+			"iter.Pull cursors over held Seq values (`pull`/`next`/`stop`): made early (also before the heap has elements) or in the middle, mostly two (sometimes three, over the same Seq or over A's and B's) that alternate (65% another cursor than the last time) between push/pop/rm/setfix/init/initc/range/popallbody lines, next() after stop(), next() of a cursor that met the empty heap after a new push (half of those exhaustions are followed by push + next); " +
 			"non-trivial = at least 5 ops including a Remove or Fix; distinct by hash of the op list",
 		Classify: classify,
 		Parallel: true,
@@ -148,7 +153,7 @@ func classify(c core.Case, out []string) []string {
 	if c.Tag == "large" {
 		// which branches the BIG containers took
 		for _, l := range ls {
-			if len(l) > 2 && l[1] == ':' && (strings.Contains(l, ":rm") || strings.Contains(l, ":fix") || strings.Contains(l, ":setfix") || strings.Contains(l, ":push:") || strings.Contains(l, ":popalln:") || strings.Contains(l, ":popall:") || strings.Contains(l, ":range") || strings.Contains(l, ":seq") || strings.Contains(l, ":copy")) {
+			if len(l) > 2 && l[1] == ':' && (strings.Contains(l, ":rm") || strings.Contains(l, ":fix") || strings.Contains(l, ":setfix") || strings.Contains(l, ":push:") || strings.Contains(l, ":popalln:") || strings.Contains(l, ":popall:") || strings.Contains(l, ":range") || strings.Contains(l, ":seq") || strings.Contains(l, ":copy") || strings.Contains(l, ":popallbody") || strings.Contains(l, ":pull") || strings.Contains(l, ":next")) {
 				ls = append(ls, "large:"+l)
 			}
 		}
@@ -217,6 +222,18 @@ func classifyCase(c core.Case, out []string) []string {
 		lastPartial, mutated  bool
 	}
 	var seqs []*seqInfo
+	// iter.Pull cursors (slice kind)
+	type curInfo struct {
+		nexts         int
+		done          bool
+		how           string
+		mutated, last bool
+	}
+	var curs []*curInfo
+	var cmpf func(a, b int) bool
+	if h := core.Toks(c.Lines[0]); len(h) >= 4 {
+		cmpf = cmpOf(h[3])
+	}
 	for i := 1; i < len(c.Lines) && i < len(out); i++ {
 		t := core.Toks(c.Lines[i])
 		if len(t) == 0 {
@@ -259,6 +276,9 @@ func classifyCase(c core.Case, out []string) []string {
 				ls = append(ls, p+"range:empty")
 			}
 			q.ranged++
+			for _, o := range curs {
+				o.mutated = true
+			}
 			q.lastPartial = len(cur) > 0
 			if q.lastPartial {
 				q.partial++
@@ -282,6 +302,182 @@ func classifyCase(c core.Case, out []string) []string {
 			case "push", "pop", "rm", "setfix", "set":
 				for _, q := range seqs {
 					q.mutated = true
+				}
+				for _, q := range curs {
+					q.mutated = true
+				}
+			case "popall", "popalln", "popallbody":
+				for _, q := range curs {
+					q.mutated = true
+				}
+			case "pull":
+				if _, ok := slotOf(t[1], len(seqs)); !ok {
+					break
+				}
+				ls = append(ls, p+"pull:n="+sizeBucket(n))
+				if n == 0 {
+					ls = append(ls, p+"pull:empty-heap")
+				}
+				if len(curs) >= 1 {
+					ls = append(ls, p+"pull:several-cursors")
+				}
+				curs = append(curs, &curInfo{})
+			case "stop":
+				cn, ok := slotOf(t[1], len(curs))
+				if !ok {
+					break
+				}
+				q := curs[cn]
+				switch {
+				case q.done:
+					ls = append(ls, p+"stop:finished-cursor")
+				case q.nexts == 0:
+					ls = append(ls, p+"stop:never-started")
+				default:
+					ls = append(ls, p+"stop:active")
+				}
+				if !q.done {
+					q.done, q.how = true, "stop"
+				}
+			case "next":
+				cn, ok := slotOf(t[1], len(curs))
+				if !ok {
+					break
+				}
+				q := curs[cn]
+				active := 0
+				for j, o := range curs {
+					if j != cn && !o.done {
+						active++
+					}
+				}
+				if q.done {
+					ls = append(ls, p+"next:after-"+q.how)
+					if n > 0 {
+						ls = append(ls, p+"next:after-"+q.how+":heap-nonempty")
+					}
+				} else {
+					if active > 0 {
+						ls = append(ls, p+"next:two-cursors")
+					}
+					if active >= 2 {
+						ls = append(ls, p+"next:three-cursors")
+					}
+					if !q.last && q.nexts > 0 && active > 0 {
+						ls = append(ls, p+"next:alternating")
+					}
+					if q.nexts == 0 {
+						ls = append(ls, p+"next:first")
+					}
+					if q.mutated {
+						ls = append(ls, p+"next:after-mutation")
+					}
+					if n >= 64 {
+						ls = append(ls, p+"next:n>=64")
+					}
+					if n == 0 {
+						ls = append(ls, p+"next:empty-finishes")
+						q.done, q.how = true, "exhaustion"
+					} else {
+						ls = append(ls, p+"next:yield")
+						for _, o := range seqs {
+							o.mutated = true
+						}
+						for j, o := range curs {
+							if j != cn {
+								o.mutated = true
+							}
+						}
+					}
+					q.nexts++
+					q.mutated = false
+				}
+				for j, o := range curs {
+					o.last = j == cn
+				}
+			}
+			if t[0] == "popallbody" && len(t) >= 2 {
+				stop, ok1 := natTok(t[1])
+				items, ok2 := parseBodyItems(t[2:], false, 0)
+				var ys []int
+				ok3 := false
+				if j := strings.LastIndex(out[i], "["); j > 0 {
+					ys, _, ok3 = parseTwoLists(out[i][:j])
+				}
+				if ok1 && ok2 && ok3 {
+					q := p + "popallbody"
+					ls = append(ls, q+":n="+sizeBucket(n))
+					if stop == 0 {
+						ls = append(ls, q+":k=0")
+					} else {
+						ls = append(ls, q+":k>0", q+":"+stopLabel(stop, n))
+					}
+					if len(cur) > 0 {
+						ls = append(ls, q+":partial")
+					}
+					if n >= 64 {
+						ls = append(ls, q+":n>=64")
+					}
+					switch {
+					case len(items) == 0:
+						ls = append(ls, q+":items=0")
+					case len(items) <= 2:
+						ls = append(ls, q+":items=1-2")
+					default:
+						ls = append(ls, q+":items=3+")
+					}
+					if len(ys) > n {
+						ls = append(ls, q+":yields>n(pushed-elements-yielded)")
+					}
+					script, _ := byIteration(items)
+					ran := 0
+					for yi, v := range ys {
+						if len(script[yi]) > 0 {
+							switch {
+							case yi == 0:
+								ls = append(ls, q+":body@first")
+							case yi == len(ys)-1:
+								ls = append(ls, q+":body@last")
+							case yi >= 3:
+								ls = append(ls, q+":body@middle")
+							}
+						}
+						for bi, b := range script[yi] {
+							ran++
+							ls = append(ls, q+":"+b.act)
+							switch b.act {
+							case "push":
+								switch {
+								case cmpf == nil:
+								case cmpf(b.arg, v):
+									ls = append(ls, q+":push-preceding")
+									if n >= 64 {
+										ls = append(ls, q+":push-preceding:n>=64")
+									}
+								case cmpf(v, b.arg):
+									ls = append(ls, q+":push-following")
+								default:
+									ls = append(ls, q+":push-tie")
+								}
+							case "peek":
+								if bi == 0 {
+									ls = append(ls, q+":peek-right-after-yield")
+								} else if script[yi][bi-1].act == "push" {
+									ls = append(ls, q+":peek-after-push")
+								}
+							case "rm", "fix":
+								switch {
+								case b.arg < 0 || b.arg > n+len(items):
+									ls = append(ls, q+":"+b.act+":out-of-range")
+								case b.arg == 0:
+									ls = append(ls, q+":"+b.act+":root")
+								}
+							}
+						}
+					}
+					if ran < len(items) {
+						ls = append(ls, q+":items-of-iterations-that-never-ran")
+					}
 				}
 			}
 		}
@@ -477,6 +673,19 @@ func smallCorpus() []core.Case {
 		{Lines: []string{"@ C04 heap key 2 1", "push A 3000", "push A 1001", "copyrm A 1", "push A 2002", "copyfix A 0", "push B 5003", "push B 4004", "copyrm A 4", "copyrm B 4", "pop A", "copyrm A 1", "copyfix A 1", "setv 0 0", "copyfix A 0", "fix A 0", "copyrm A 0", "rm A 0", "len A", "popall A", "popall B"}},
 		// a handle from before an Init with another comparator goes into the OTHER heap and is used there
 		{Lines: []string{"@ C04 heap lt 1 1", "init A 5 3 8", "push B 4", "initc A gt 1 2 6", "pushe B 1", "rm A 1", "fix A 0", "setfix B 1 9", "setfix B 1 0", "peek B", "pushe B 0", "pushe A 2", "peek A", "rm B 0", "pop B", "pop B", "rm B 1", "popall A", "popall B"}},
+		// wave 5: the loop body uses the heaps while PopAll is ranged over (a push that precedes the element
+		// just yielded is the next one yielded; the yielded element has left the heap when the body runs)
+		{Lines: []string{"@ C04 heap lt", "init A 5 3 8", "popallbody A 0 0:push:A:1 0:peek:A 1:len:A 1:rm:A:2 2:push:B:7", "len A", "popall B"}},
+		{Lines: []string{"@ C04 heap key 2 1", "init A 5000 3001 8002 3003", "push B 4004", "popallbody A 2 0:peek:A 0:push:A:1005 0:peek:A 0:len:A 1:rm:A:1 1:fix:A:0 1:pop:B 1:pop:B 1:push:B:9006 2:push:A:7", "peek A", "popallbody A 0 0:rm:A:0 0:rm:A:2 0:len:A 5:push:A:1", "popallbody B 1 0:push:A:2007 0:len:B", "popallbody A 0", "popallbody A 3 0:push:A:5"}},
+		{Lines: []string{"@ C04 heap gt", "init A 1 2 3 4 5 6 7", "popallbody A 0 0:push:A:9 1:push:A:9 1:peek:A 3:pop:A 3:len:A 4:fix:A:0 4:rm:A:1", "len A"}},
+		{Lines: []string{"@ C04 slice key 5000 3000 8000", "popallbody 2 0:push:1000 0:peek 1:len 1:rm:0", "len", "popallbody 0 0:push:9001 0:push:2 0:pop 0:rm:-1 0:rm:7 0:fix:0 1:peek 2:peek 2:pop", "popallbody 0 0:push:1", "popallbody 1"}},
+		{Lines: []string{"@ C04 slice gt 1 2 3 4 5 6 7", "popallbody 0 0:push:9 1:push:9 1:peek 3:pop 3:len 4:fix:0 4:rm:1 5:rm:0", "len"}},
+		// wave 5: iter.Pull cursors over a held Seq: one next() = one Pop of the shared heap; a cursor that met
+		// the empty heap (or was stopped) stays finished, also after new pushes
+		{Lines: []string{"@ C04 heap lt", "seq A", "init A 4 2", "pull 0", "pull 0", "next 0", "next 1", "next 0", "push A 9", "next 0", "stop 1", "next 1", "len A", "pull 0", "next 2", "next 2"}},
+		{Lines: []string{"@ C04 heap key 1 1", "seq A", "seq B", "pull 0", "pull 1", "pull 0", "next 1", "init A 5000 3001 8002", "push B 4003", "next 0", "next 2", "rm A 0", "next 1", "next 0", "next 2", "initc A gt 1 2 3", "next 2", "stop 2", "stop 2", "next 2", "range 0 1", "next 0", "next 0", "next 0"}},
+		{Lines: []string{"@ C04 slice lt 4 2", "seq", "pull 0", "pull 0", "next 0", "next 1", "next 0", "push 9", "next 0", "stop 1", "next 1", "len", "pull 0", "next 2", "next 2"}},
+		{Lines: []string{"@ C04 slicen rkey 0", "seq", "pull 0", "push 3000", "push 5001", "push 1002", "next 0", "seq", "pull 1", "next 1", "setfix 0 9003", "next 0", "next 1", "next 1", "push 7", "next 1", "next 0", "stop 0", "next 0"}},
 		{Lines: []string{"@ C04 slicen lt 2", "seq", "pop", "range 0 1", "push 3", "push 1", "push 2", "range 0 1", "push 0", "range 0 1", "seq", "range 1 5", "range 0 1", "push 7", "push 6", "setfix 1 0", "range 0 1", "rm 0", "rangeall 1", "rangeall 0", "len"}},
 		{Lines: []string{"@ C04 slice rkey 1000 3001 2002 3003 1004", "seq", "seq", "range 0 2", "range 1 1", "push 5005", "range 0 1", "range 1 9", "push 1", "rangeall 0"}},
 		{Lines: []string{"@ C04 slice lt 1 10 2 11 12 3 4", "rm 3", "rm 5", "rm 0", "pop", "pop", "pop", "len", "pop", "pop", "push 8", "rm 0", "rm 0"}},
